@@ -4284,10 +4284,20 @@ impl ZonedRound {
         let start = zdt.start_of_day().with_context(move || {
             err!("failed to find start of day for {zdt}")
         })?;
-        let end = start
-            .checked_add(Span::new().days_ranged(C(1).rinto()))
+        // The end of this day is the start of the next civil day. That is not
+        // necessarily `start + 1 day`: when this day begins after a gap (so
+        // that it doesn't start at midnight), adding 1 day to its start keeps
+        // the non-midnight clock time, but the next day may well begin at
+        // midnight.
+        let end = zdt
+            .date()
+            .tomorrow()
+            .and_then(|tomorrow| tomorrow.to_zoned(zdt.time_zone().clone()))
             .with_context(|| {
-                err!("failed to add 1 day to {start} to find length of day")
+                err!(
+                    "failed to find start of day after {start} \
+                     to find length of day"
+                )
             })?;
         let span = start
             .timestamp()
